@@ -402,8 +402,18 @@ def r6(ctx):
             ctx.check(bool(guard), rule, cp + '|per-device', pk[0].where(), 'the group is split by device whenever the flag is set', 'partition_by_key(device) is not applied under the cross-device flag')
             # key = device id
             keyc = [lib.body(x) for x in lib.closures_of(cp, recursive=False)]
-            dev = any(kc.calls(r'device_id$') for kc in keyc)
-            ctx.check(dev, rule, cp + '|key', pk[0].where(), 'partition key = metadata.device_id()', 'the partition key is not the device id')
+            keyc += [hb for kc in list(keyc) for k in kc.calls(r'^dedupe::PathAndMetadata::\w+$') for hb in [lib.body(k.path)] if hb is not None]
+            dev = any(kc.calls(r'device_id$|MetadataExt>::dev$|MetadataExt::dev$') for kc in keyc)
+            ctx.check(dev, rule, cp + '|key', pk[0].where(), 'partition key = a device id', 'the partition key is not the device id')
+            # ... of the directory entry that is going to be replaced: for a symbolic link `metadata` describes the TARGET (it may live on another device)
+            def reads(body, name):
+                from ..facts import rvalue_places, place_fields
+                return any(name in place_fields(pl) for blk in body.blocks for st in blk['stmts'] for pl in rvalue_places(st['rv']))
+            own = any(reads(kc, 'link_metadata') for kc in keyc)
+            ctx.check(own, rule, cp + '|key-of-the-entry', pk[0].where(), 'for a symbolic link the key is the device of the link itself (link_metadata)',
+                      'the groups are split by metadata.device_id() only, and for a symbolic link of a `-S` report `metadata` are those of the target: a link on another device than its target is put '
+                      'into the partition of the target, and `link` issues a hard link across devices - the real run fails and restores the link, while the script printed by --dry-run (mv, ln, rm) '
+                      'deletes it; a link whose target lives elsewhere is never linked to the files next to it')
             gsl = backslice(cb, [pt[0].args[0]])
             ctx.check(pk[0] in gsl.calls, rule, cp + '|partition-consumes', pt[0].where(), 'partition() receives the per-device groups', 'partition() does not consume the per-device groups')
     if not found:
